@@ -459,15 +459,18 @@ Definition wrapper (hs : res Session) (is_client : bool) (want : option (list Z)
     end
   end.
 
-(* the same with checker.Checker's treatment of RESUMED connections (checker.py 60-62): unless the Checker
-   was built with checkResumedSession=True it returns at once when connection.resumed is set -- for a server
-   this includes identities restored from a session ticket, which was sent BEFORE the Checker ran on the full
-   handshake *)
+(* the same with checker.Checker's treatment of RESUMED connections (checker.py 60-67): a CLIENT-side Checker
+   built without checkResumedSession=True returns at once when connection.resumed is set (the client checked that
+   very session object when it was created, and a failed check makes it non-resumable).  A SERVER always checks
+   again (/repo 3463378): the identity it restores comes from a session ticket that was sent BEFORE the Checker ran
+   on the full handshake and cannot be revoked.  Before 3463378 the server skipped the check too and
+   checker_mismatch_fails_call_resumed was refuted by session_w3 (finding F-C05-4). *)
 Definition wrapper_r (hs : res Session) (is_client : bool) (want : option (list Z))
                      (fp : list Z -> list Z) (resumed check_resumed : bool) : res Session :=
-  if resumed && negb check_resumed then map_exn hs else wrapper hs is_client want fp.
+  if resumed && negb check_resumed && is_client then map_exn hs else wrapper hs is_client want fp.
 
-(* witness: the ticket of a client whose chain [9] the server's Checker (expects [21]) rejected *)
+(* former witness (accepted before /repo 3463378): the ticket of a client whose chain [9] the server's Checker
+   (expects [21]) rejected *)
 Definition session_w3 : Session :=
   {| s_server_chain := Some [1]; s_client_chain := Some [9]; s_srp_user := None; s_dc := false; s_psk := Some 5 |}.
 
